@@ -199,6 +199,10 @@ def handle (op : String) (j : Json) : Option Json :=
       let fin := final init stmts
       some (obj [("agrees", agrees r init),
                  ("exact", exactOk d r init o),
+                 -- the same verdict with the server-default request taken out: true iff a failing `exact` is about the
+                 -- default attribute only (used by the harness to keep the PG-identity known finding narrow)
+                 ("exactNoDefault", keepOk r init fin stmts &&
+                    (o.err.isSome || requestedOk d { r with serverDefault := .unset } fin)),
                  ("keep", keepOk r init fin stmts),
                  ("requested", requestedOk d r fin),
                  ("schema", schemaOk r o),
